@@ -567,7 +567,37 @@ def gen_poolops(repo):
     return "\n".join(L)
 
 
-FRAGMENTS = [("Dispatch", gen_dispatch), ("Stubs", gen_stubs), ("Fields", gen_fields), ("PoolOps", gen_poolops)]
+def gen_rpcompare(repo):
+    """Pattern-buffer discipline of RePair::extractStringAndCompareRP (C14)."""
+    src = strip_comments(read(repo, "RePair/RePair.cpp"))
+    body, _ = func_body(src, "RePair::extractStringAndCompareRP")
+    w = re.search(r"str\s*\[\s*strLen\s*\]\s*=\s*maxchar\s*;", body)
+    rs = [m for m in re.finditer(r"str\s*\[\s*strLen\s*\]\s*=\s*(0|'\\0')\s*;", body)]
+    if not w:
+        raise ValueError("extractStringAndCompareRP no longer writes the sentinel the model describes")
+    restore_at = rs[-1].start() if rs else -1
+    between = body[w.end():restore_at] if restore_at > 0 else body[w.end():]
+    early = len(re.findall(r"\breturn\b", between))
+    after = body[restore_at:] if restore_at > 0 else ""
+    final_return = bool(re.search(r"return\s+cmp\s*;", after))
+    # other routines writing into the caller's pattern
+    writers = []
+    for fn in re.finditer(r"(\w+::\w+)\s*\([^)]*uchar\s*\*\s*str[^)]*\)\s*\{", src):
+        b, _h = func_body(src, fn.group(1), must=False)
+        if b and re.search(r"\bstr\s*\[[^\]]*\]\s*=[^=]", b):
+            writers.append(fn.group(1))
+    L = ["-- generated by tools/extract_frag.py from RePair/RePair.cpp", "namespace CSD.Generated", "",
+         "/-- `return` statements between the sentinel write `str[strLen] = maxchar` and the restore `str[strLen] = 0` -/",
+         "def rpEarlyReturns : Nat := %d" % early,
+         "/-- the restore exists and is followed by the final `return cmp;` -/",
+         "def rpRestores : Bool := %s" % ("true" if restore_at > 0 and final_return else "false"),
+         "/-- routines of RePair.cpp that assign through the caller's pattern pointer -/",
+         "def rpPatternWriters : List String := " + lean_list(lean_str(x) for x in sorted(set(writers))),
+         "", "end CSD.Generated", ""]
+    return "\n".join(L)
+
+
+FRAGMENTS = [("RPCompare", gen_rpcompare), ("Dispatch", gen_dispatch), ("Stubs", gen_stubs), ("Fields", gen_fields), ("PoolOps", gen_poolops)]
 
 if __name__ == "__main__":
     import sys
